@@ -97,16 +97,95 @@ func (r flowResult) clean(base int) bool {
 	return !r.agentProc && !r.agentList && r.frames == 0 && len(r.gor) <= base && r.timeout == ""
 }
 
-func runFlow(p flowPlan) (res flowResult, base int) {
+// agentTap is the harness's own log of what the agent is told, fed to Uniflow.AgentProc (driver c05a):
+// an open hook installed on every port of every symbol BEFORE Agent.Load logs `accept p` (the
+// agent's open hook, which calls accept, runs right after it), registers – once per process, hence
+// before the agent's – an exit hook that logs `hook p` (it runs right after the agent's, exit hooks
+// running newest first), and puts packet hooks on the endpoint that log `inb` / `outb` just before
+// the agent's own packet hooks run under the same endpoint lock. Only the key sets of the agent's
+// two maps are compared (at rest they do not depend on how events of different endpoints interleave).
+type agentTap struct {
+	mu     sync.Mutex
+	procs  map[*process.Process]int
+	marked map[*process.Process]bool
+	pcks   map[*packet.Packet]int
+	lines  [][2]string
+}
+
+func (t *agentTap) log(line string) {
+	t.mu.Lock()
+	t.lines = append(t.lines, [2]string{line, "ok"})
+	t.mu.Unlock()
+}
+
+func (t *agentTap) packet(key string, inb bool, pi int, pck *packet.Packet) {
+	t.mu.Lock()
+	id, ok := t.pcks[pck]
+	if !ok {
+		id = len(t.pcks) + 1
+		t.pcks[pck] = id
+	}
+	name := "outb"
+	if inb {
+		name = "inb"
+	}
+	t.lines = append(t.lines, [2]string{fmt.Sprintf("%s %d %s %d", name, pi, key, id), "ok"})
+	t.mu.Unlock()
+}
+
+// opened is the body of the tap's open hook; attach puts the packet hooks on the endpoint.
+func (t *agentTap) opened(pr *process.Process, key string, attach func(in, out packet.Hook)) {
+	t.mu.Lock()
+	pi, ok := t.procs[pr]
+	first := ok && !t.marked[pr]
+	if first {
+		t.marked[pr] = true
+	}
+	t.mu.Unlock()
+	if !ok {
+		return
+	}
+	t.log(fmt.Sprintf("accept %d", pi))
+	if first {
+		pr.AddExitHook(process.ExitFunc(func(error) { t.log(fmt.Sprintf("hook %d", pi)) }))
+	}
+	attach(packet.HookFunc(func(p *packet.Packet) { t.packet(key, true, pi, p) }),
+		packet.HookFunc(func(p *packet.Packet) { t.packet(key, false, pi, p) }))
+}
+
+// keys asks the agent for the key sets of its two maps, as indices of the harness's processes.
+func (t *agentTap) keys(a *uruntime.Agent, procs []*process.Process) {
+	ps, fs := a.VerifC05Keys()
+	show := func(ids []uuid.UUID) string {
+		var xs []string
+		for i, pr := range procs {
+			for _, id := range ids {
+				if id == pr.ID() {
+					xs = append(xs, fmt.Sprint(i))
+				}
+			}
+		}
+		if len(xs) == 0 {
+			return "-"
+		}
+		return strings.Join(xs, ",")
+	}
+	t.mu.Lock()
+	t.lines = append(t.lines, [2]string{fmt.Sprintf("keys %d", len(procs)), "procs=" + show(ps) + " frames=" + show(fs)})
+	t.mu.Unlock()
+}
+
+func runFlow(p flowPlan) (res flowResult, base int, alines [][2]string) {
 	base = len(uniflowGoroutines())
+	var mainProc *process.Process
 
 	entered := make(chan struct{}, 16)
 	gate := make(chan struct{})
 	var nodes []*node.OneToOneNode
 	for i := 0; i < p.nodes; i++ {
 		i := i
-		nodes = append(nodes, node.NewOneToOneNode(func(_ *process.Process, in *packet.Packet) (*packet.Packet, *packet.Packet) {
-			if p.abort && i == p.blockAt {
+		nodes = append(nodes, node.NewOneToOneNode(func(pr *process.Process, in *packet.Packet) (*packet.Packet, *packet.Packet) {
+			if p.abort && i == p.blockAt && pr == mainProc {
 				entered <- struct{}{}
 				<-gate
 				if p.errPath {
@@ -124,8 +203,26 @@ func runFlow(p flowPlan) (res flowResult, base int) {
 
 	var agent *uruntime.Agent
 	var syms []*symbol.Symbol
+	var tap *agentTap
 	if p.agent {
 		agent = uruntime.NewAgent()
+		tap = &agentTap{procs: map[*process.Process]int{}, marked: map[*process.Process]bool{}, pcks: map[*packet.Packet]int{}}
+		for i, n := range nodes {
+			in, out, er := n.In(node.PortIn), n.Out(node.PortOut), n.Out(node.PortError)
+			kin, kout, kerr := fmt.Sprintf("%d %d -", i, 3*i), fmt.Sprintf("%d - %d", i, 3*i+1), fmt.Sprintf("%d - %d", i, 3*i+2)
+			in.AddOpenHook(port.OpenHookFunc(func(pr *process.Process) {
+				tap.opened(pr, kin, func(a, b packet.Hook) { r := in.Open(pr); r.AddInboundHook(a); r.AddOutboundHook(b) })
+			}))
+			for _, x := range []struct {
+				o *port.OutPort
+				k string
+			}{{out, kout}, {er, kerr}} {
+				x := x
+				x.o.AddOpenHook(port.OpenHookFunc(func(pr *process.Process) {
+					tap.opened(pr, x.k, func(a, b packet.Hook) { w := x.o.Open(pr); w.AddInboundHook(a); w.AddOutboundHook(b) })
+				}))
+			}
+		}
 		for i, n := range nodes {
 			sb := &symbol.Symbol{Spec: &spec.Meta{ID: uuid.Must(uuid.NewV7()), Kind: "verif", Namespace: "default", Name: fmt.Sprintf("n%d", i)}, Node: n}
 			syms = append(syms, sb)
@@ -139,8 +236,36 @@ func runFlow(p flowPlan) (res flowResult, base int) {
 	}
 
 	proc := process.New()
+	mainProc = proc
+	var by *process.Process // a second process that completes one request and exits before the first one does
+	procs := []*process.Process{proc}
+	if tap != nil {
+		by = process.New()
+		procs = append(procs, by)
+		tap.procs[proc], tap.procs[by] = 0, 1
+	}
+	// midway: the main process is in flight (or has all its answers), the bystander is done
+	midway := func() {
+		if tap == nil {
+			return
+		}
+		tap.keys(agent, procs)
+		tap.log("term 1")
+		by.Exit(nil)
+		tap.keys(agent, procs)
+	}
 	w := src.Open(proc)
 	ok, _ := lib.WithTimeout(watchdog, func() {
+		if by != nil {
+			bw := src.Open(by)
+			bw.Write(packet.New(types.NewString("bystander")))
+			select {
+			case <-bw.Receive():
+			case <-time.After(watchdog / 2):
+				res.timeout = "the bystander's response did not arrive"
+				return
+			}
+		}
 		for i := 0; i < p.requests; i++ {
 			w.Write(packet.New(types.NewString(fmt.Sprintf("req%d", i))))
 		}
@@ -153,10 +278,18 @@ func runFlow(p flowPlan) (res flowResult, base int) {
 					return
 				}
 			}
+			midway()
+			if tap != nil {
+				tap.log("term 0")
+			}
 			proc.Exit(nil)
 			return
 		}
 		<-entered // the first request is inside the blocking action
+		midway()
+		if tap != nil {
+			tap.log("term 0")
+		}
 		if p.exitFrom == 0 {
 			proc.Exit(nil)
 		} else {
@@ -230,6 +363,14 @@ func runFlow(p flowPlan) (res flowResult, base int) {
 		time.Sleep(2 * time.Millisecond)
 	}
 
+	if tap != nil && res.timeout == "" {
+		// at rest after Exit: the agent's two maps against the model fed the tap's log
+		tap.keys(agent, procs)
+		tap.mu.Lock()
+		alines = append(alines, tap.lines...)
+		tap.mu.Unlock()
+	}
+
 	// tear the workflow down so that a leak is charged to this scenario only
 	if agent != nil {
 		for _, sb := range syms {
@@ -241,10 +382,11 @@ func runFlow(p flowPlan) (res flowResult, base int) {
 	for _, n := range nodes {
 		_ = n.Close()
 	}
-	return res, base
+	return res, base, alines
 }
 
-func runFlows(c *lib.Ctx, rng *lib.RNG, fails *[]lib.OracleFail) {
+func runFlows(c *lib.Ctx, rng *lib.RNG, fails *[]lib.OracleFail) []lib.Mismatch {
+	sc := &lib.Script{}
 	n := c.Scale(50, 500)
 	perClass := map[string]int{}
 	// regression witnesses first: (1) one node, one request blocked inside the action, Exit, with the
@@ -264,7 +406,14 @@ func runFlows(c *lib.Ctx, rng *lib.RNG, fails *[]lib.OracleFail) {
 			p = flowPlan{nodes: rng.Range(1, 3), requests: rng.Range(1, 4), agent: rng.Bool(), abort: rng.Chance(3, 5), exitFrom: rng.Intn(2), errPath: rng.Chance(1, 4), abandon: rng.Chance(1, 4)}
 			p.blockAt = rng.Intn(p.nodes)
 		}
-		r, base := runFlow(p)
+		r, base, alines := runFlow(p)
+		if len(alines) > 0 {
+			sc.Begin()
+			for _, l := range alines {
+				sc.Op(l[0], l[1])
+			}
+			c.Hit("flow-agent-model-case")
+		}
 		c.Count("flow:" + p.String())
 		c.Hit(fmt.Sprintf("flow-abort-%v-agent-%v", p.abort, p.agent))
 		add := func(class, what string) {
@@ -308,4 +457,10 @@ func runFlows(c *lib.Ctx, rng *lib.RNG, fails *[]lib.OracleFail) {
 			add("flow-goroutine", fmt.Sprintf("%d goroutines with uniflow/pkg frames remain (before the workflow: %d) (%s); one of them:\n%s", len(r.gor), base, p, g))
 		}
 	}
+	ms, err := c.RunModel("c05a", sc)
+	if err != nil {
+		c.Violation("model driver (agent) failed: "+err.Error(), "", false)
+		return nil
+	}
+	return ms
 }
